@@ -1,0 +1,86 @@
+//go:build verif
+
+// Package verif contains tracing hooks used by external verification tooling.
+// With the build tag `verif`, Emit appends one JSON line per event to the file
+// named by $VERIF_TRACE (sequence numbers are taken under the same mutex that
+// serialises the writes) and Yield perturbs the goroutine schedule with a
+// generator seeded from $VERIF_SCHED_SEED.
+package verif
+
+import (
+	"encoding/json"
+	"os"
+	"runtime"
+	"strconv"
+	"sync"
+	"time"
+)
+
+// Enabled reports whether the hooks are compiled in.
+const Enabled = true
+
+var (
+	mu      sync.Mutex
+	seq     int
+	out     *os.File
+	once    sync.Once
+	sched   uint64
+	schedOn bool
+)
+
+func setup() {
+	if p := os.Getenv("VERIF_TRACE"); p != "" {
+		f, err := os.OpenFile(p, os.O_APPEND|os.O_CREATE|os.O_WRONLY, 0o644)
+		if err == nil {
+			out = f
+		}
+	}
+	if s := os.Getenv("VERIF_SCHED_SEED"); s != "" {
+		if v, err := strconv.ParseUint(s, 10, 64); err == nil {
+			sched = v*2862933555777941757 + 3037000493
+			schedOn = true
+		}
+	}
+}
+
+// Emit records an event: ev is the event name, kv are key/value pairs.
+func Emit(ev string, kv ...any) {
+	once.Do(setup)
+	if out == nil {
+		return
+	}
+	m := make(map[string]any, len(kv)/2+2)
+	for i := 0; i+1 < len(kv); i += 2 {
+		if k, ok := kv[i].(string); ok {
+			m[k] = kv[i+1]
+		}
+	}
+	m["ev"] = ev
+	mu.Lock()
+	defer mu.Unlock()
+	seq++
+	m["seq"] = seq
+	b, err := json.Marshal(m)
+	if err != nil {
+		return
+	}
+	out.Write(append(b, '\n'))
+}
+
+// Yield perturbs the schedule at a named point.
+func Yield(point string) {
+	once.Do(setup)
+	if !schedOn {
+		return
+	}
+	mu.Lock()
+	sched = sched*6364136223846793005 + 1442695040888963407
+	r := sched >> 33
+	mu.Unlock()
+	switch r % 8 {
+	case 0, 1, 2:
+		runtime.Gosched()
+	case 3:
+		time.Sleep(time.Duration(r%200) * time.Microsecond)
+	}
+}
